@@ -3,8 +3,6 @@ import MpVerif.C05.LemmasSuf
 namespace MpVerif.C05
 open MpVerif.C14
 
-def readAll : Policy := ⟨0, .all, .all, .all⟩
-
 /-! ## suffix list -/
 
 theorem countNl_join (init : List Bytes) (last : Bytes) (hi : ∀ l ∈ init, ∀ c ∈ l, c ≠ 10) (hl : ∀ c ∈ last, c ≠ 10) :
@@ -27,20 +25,6 @@ theorem length_le_joinNl (ls : List Bytes) : ls.length ≤ (joinNl ls).length :=
   induction ls with
   | nil => simp [joinNl]
   | cons l ls ih => simp only [joinNl, List.flatMap_cons, List.length_append, List.length_cons, List.length_nil] at ih ⊢; omega
-
-/-- what the reader must deliver for one suffix of the solution -/
-def obsSuf {D : Type} (c : Codec D) (s : Suf D) : List Event :=
-  if !isOutput s.kind then [] else
-    [.suffix false ((kindMask s.kind : Nat) : Int) ((s.name.length + 1 : Nat) : Int)
-      ((if s.table = [] then 0 else s.table.length + 1 : Nat) : Int) s.name s.table
-      ⟨(s.entries c).length, (s.entries c).map (fun e => ⟨(e.1 : Int), 32 :: e.2⟩), .ok, 0⟩]
-
-/-- side conditions on one suffix (only OUTPUT suffixes are written) -/
-structure SufOK {D : Type} (c : Codec D) (s : Suf D) : Prop where
-  name : GoodName s.name
-  entries : ∀ e ∈ s.entries c, e.1 ≤ 2147483647 ∧ GoodSufTok e.2
-  count : (s.entries c).length ≤ 2147483599
-  table : s.table = [] ∨ ∃ init last, s.table = joinNl init ++ last ∧ GoodTable init last ∧ s.table.length ≤ 199999999 ∧ s.table ≠ []
 
 theorem writeSuffix_eq {D : Type} (c : Codec D) (s : Suf D) (ho : isOutput s.kind = true) :
     writeSuffix c s = str "suffix " ++ hdrFields (kindMask s.kind) (s.entries c).length (s.name.length + 1)
@@ -117,19 +101,6 @@ theorem gsuf_sufs {D : Type} (fx : Bool) (c : Codec D) (sufs : List (Suf D))
 
 /-! ## message -/
 
-/-- the lines the reader will see: interior empty lines are written as a single space, a final empty
-line is the terminator itself -/
-def escLines : List Bytes → List Bytes
-  | [] => []
-  | [l] => if l = [] then [] else [l]
-  | l :: l' :: ls => (if l = [] then [32] else l) :: escLines (l' :: ls)
-
-/-- what follows the terminating empty line (one more `\n` when the message ends with a newline) -/
-def tailNl : List Bytes → Bytes
-  | [] => [10]
-  | [l] => if l = [] then [10] else []
-  | _ :: l' :: ls => tailNl (l' :: ls)
-
 theorem writeMsgLines_eq (ls : List Bytes) :
     writeMsgLines ls = (escLines ls).flatMap (· ++ [10]) ++ 10 :: tailNl ls := by
   induction ls with
@@ -143,9 +114,6 @@ theorem writeMsgLines_eq (ls : List Bytes) :
     | cons l' ls =>
       simp only [writeMsgLines, escLines, tailNl, ih, List.flatMap_cons]
       by_cases h : l = [] <;> simp [h]
-
-/-- the message as `OnSolveMessage` receives it -/
-def msgRead (msg : Bytes) : Bytes := (escLines (splitLines msg)).flatMap (· ++ [10])
 
 theorem message_roundtrip (msg rest : Bytes) (f : Nat)
     (h : ∀ l ∈ escLines (splitLines msg), GoodLine l) (hf : (escLines (splitLines msg)).length < f) :
@@ -229,10 +197,6 @@ theorem outCount_le {D : Type} (c : Codec D) (sufs : List (Suf D)) : outCount su
 
 def prependEvs (es : List Event) (r : Result) : Result := { r with evs := es ++ r.evs }
 
-/-- the event of a dual/primal vector: none when the vector is empty -/
-def vecEvs {D : Type} (c : Codec D) (mk : VecOut → Event) (vs : List D) : List Event :=
-  if vs.length = 0 then [] else [mk ⟨vs.length, vs.map (fun v => ⟨0, c.enc v⟩), .ok, 0⟩]
-
 theorem runVec_vals {D : Type} (c : Codec D) (vs : List D) (rest : Bytes) (h : ∀ v ∈ vs, GoodNum (c.enc v)) :
     runVec false .dbl .all vs.length (writeVals c vs ++ rest) =
       (⟨vs.length, vs.map (fun v => ⟨0, c.enc v⟩), .ok, 0⟩, rest) := by
@@ -274,28 +238,6 @@ theorem dualPart_written {D : Type} (fx : Bool) (c : Codec D) (ds ps : List D) (
     simp only [afterVec, checkReader]
     simp only [afterDual, Bool.false_eq_true, if_false, hpp]
     simp [Result.cons, prependEvs, vecEvs]
-
-/-- side conditions of the round trip (each is either a documented restriction of the format or a finding,
-see the counterexamples in Props.lean) -/
-structure Wf {D : Type} (c : Codec D) (s : Sol D) (nv nc : Nat) : Prop where
-  msg : ∀ l ∈ escLines (splitLines s.msg), GoodLine l
-  opts : ∃ o0 o1 o2 os, s.options = o0 :: o1 :: o2 :: os ∧ os.length ≤ 6 ∧ o1 ≠ 3
-  ints : ∀ i ∈ optInts s.options s.ncons s.duals.length s.nvars s.primals.length, Int32 i
-  duals : ∀ v ∈ s.duals, GoodNum (c.enc v)
-  primals : ∀ v ∈ s.primals, GoodNum (c.enc v)
-  nd : s.duals.length ≤ nc
-  np : s.primals.length ≤ nv
-  objno : Int64 (s.objno - 1)
-  status : Int64 s.status
-  sufs : ∀ x ∈ s.sufs, isOutput x.kind = true → SufOK c x
-
-/-- what the handler must observe -/
-def observable {D : Type} (c : Codec D) (s : Sol D) : List Event :=
-  (if (msgRead s.msg).length = 0 then [] else [.msg (msgRead s.msg) 0]) ++
-  [.options (optInts s.options s.ncons s.duals.length s.nvars s.primals.length) false []] ++
-  (vecEvs c (.dual false) s.duals ++ vecEvs c (.primal false) s.primals) ++
-  [.objno false (encInt (s.objno - 1)) (32 :: encInt s.status)] ++
-  s.sufs.flatMap (obsSuf c)
 
 theorem body_written {D : Type} (fx fm : Bool) (c : Codec D) (s : Sol D) (nv nc : Nat) (w : Wf c s nv nc)
     (o0 o1 o2 : Int) (os : List Int) (ho : s.options = o0 :: o1 :: o2 :: os) :
@@ -402,5 +344,82 @@ theorem roundtrip {D : Type} (fx fm : Bool) (c : Codec D) (s : Sol D) (nv nc : N
     simp only [ne_eq, not_true_eq_false, if_false, Bool.false_eq_true]
     rw [cstr_clean _ (msgRead_clean s.msg w.msg)]
     split <;> simp [Result.cons, *]
+
+/-! ## integral reals -/
+
+theorem getD_last_char (t : Bytes) (ht : t ≠ []) : (t ++ [10]).getD (t.length - 1) 0 = t.getLast ht := by
+  rcases List.eq_nil_or_concat t with h | ⟨l, x, h⟩
+  · exact absurd h ht
+  · subst h
+    have hl : (l ++ [x]).getLast (by simp) = x := by simp
+    simp only [List.concat_eq_append, List.length_append, List.length_cons, List.length_nil, Nat.add_sub_cancel, List.append_assoc,
+      List.cons_append, List.nil_append]
+    rw [getD_last l x [10]]
+    simp
+
+theorem encInt_last_digit (n : Int) : isDigit ((encInt n).getLast (encInt_ne_nil n)) = true := by
+  obtain ⟨hd, hne, _⟩ := encNat_spec n.natAbs
+  have key : ∀ (t : Bytes) (h : t ≠ []), (∀ c ∈ t, isDigit c = true ∨ c = 45) → isDigit (t.getLast h) = true ∨ t.getLast h = 45 := by
+    intro t h hall; exact hall _ (List.getLast_mem h)
+  rcases encInt_cases n with ⟨_, e⟩ | ⟨_, e⟩
+  · have : (encInt n).getLast (encInt_ne_nil n) ∈ encNat n.natAbs := by rw [← e]; exact List.getLast_mem _
+    exact hd _ this
+  · have hmem : (encInt n).getLast (encInt_ne_nil n) ∈ encNat n.natAbs := by
+      have h1 : (encInt n).getLast (encInt_ne_nil n) = (45 :: encNat n.natAbs).getLast (by simp) := by simp [e]
+      rw [h1, List.getLast_cons hne]; exact List.getLast_mem _
+    exact hd _ hmem
+
+/-- the printed text of an integral real below 10^15 satisfies the codec hypothesis for vector values … -/
+theorem goodNum_encInt (n : Int) (h : n.natAbs < 10 ^ 15) : GoodNum (encInt n) := by
+  have c := encInt_clean n
+  have l := encInt_len n 14 (by simpa using h)
+  have k := strtodLen_encInt n 10 [] (.inr rfl)
+  have hne := encInt_ne_nil n
+  have hlen : ¬ ((encInt n).length = 0) := by
+    cases h' : encInt n with
+    | nil => exact absurd h' hne
+    | cons _ _ => simp
+  refine ⟨by omega, fun x hx => ⟨(c x hx).1, (c x hx).2.1⟩, ?_⟩
+  unfold decstring
+  rw [show encInt n ++ [10] = encInt n ++ 10 :: [] from rfl, k]
+  simp only [hlen, if_false]
+  rw [show encInt n ++ 10 :: [] = encInt n ++ [10] from rfl, getD_last_char _ hne]
+  have hd := encInt_last_digit n
+  simp only [hd, Bool.true_or, if_true]
+  rw [List.take_left' rfl]
+
+/-- … and for suffix values -/
+theorem goodSufTok_encInt' (n : Int) (h : n.natAbs < 10 ^ 15) : GoodSufTok (encInt n) := by
+  have c := encInt_clean n
+  have l := encInt_len n 14 (by simpa using h)
+  refine ⟨by omega, fun x hx => ⟨(c x hx).1, (c x hx).2.1⟩, ?_⟩
+  have k := strtodLen_encInt n 10 [] (.inr rfl)
+  have hne : ¬ ((encInt n).length = 0) := by
+    have := encInt_ne_nil n
+    cases h' : encInt n with
+    | nil => exact absurd h' this
+    | cons _ _ => simp
+  rw [show (32 :: encInt n ++ [10]) = 32 :: (encInt n ++ 10 :: []) from rfl, strtodLen_sp _ (by rw [k]; exact hne), k]
+
+theorem all_isDigit_encNat (m : Nat) : (encNat m).all isDigit = true := by
+  rw [List.all_eq_true]; exact (encNat_spec m).1
+
+/-- the exact value of the printed text is the integer itself -/
+theorem intTextValue_encInt (n : Int) : intTextValue (encInt n) = some n := by
+  obtain ⟨hd, hne, hv⟩ := encNat_spec n.natAbs
+  have hall := all_isDigit_encNat n.natAbs
+  rcases encInt_cases n with ⟨hn, e⟩ | ⟨hn, e⟩
+  · rw [e]
+    have h45 : ∀ t, encNat n.natAbs ≠ 45 :: t := by
+      intro t ht
+      have : (45 : Nat) ∈ encNat n.natAbs := by rw [ht]; simp
+      have := hd 45 this
+      simp [isDigit] at this
+    unfold intTextValue
+    split
+    · rename_i ds heq; exact absurd heq (h45 ds)
+    · simp [hne, hall, hv]; omega
+  · rw [e]
+    simp [intTextValue, hne, hall, hv]; omega
 
 end MpVerif.C05
